@@ -15,6 +15,8 @@ class Verifier:
         self.modconst = {}; self.exc_parent = {}
         self._spec_cache = {}
         self.reset_fn()
+        from . import strlib
+        strlib.install(self)
 
     def reset_fn(self):
         self.obls = {}; self.assumptions = set(); self.inlined = set(); self.bounded = []
